@@ -554,6 +554,7 @@ def _mutants():
     from selftest.mutate import Mutant as M
     I = "_img.py"
     return [
+        M("freq-mask-cap-from-the-time-cap", "_img.py", "self.max_freq_mask = max_freq_mask", "self.max_freq_mask = max_time_mask", "G44"),
         M("lower-pin-at-image-edge", I, "lowers = torch.full((N,), 1 / T - 1 - eps, dtype=torch.float, device=device)", "lowers = torch.full((N,), -1.0 - eps, dtype=torch.float, device=device)", "pinned-knots-are-the-first-and-last-frame-centres"),
         M("upper-pin-one-frame-out", I, "uppers = (2 * lengths - 1) / T - 1.0 + eps", "uppers = (2 * lengths + 1) / T - 1.0 + eps", "pinned-knots-are-the-first-and-last-frame-centres"),
         M("grid-left-in-float32", "_img.py", "grid = grid.to(new_feats.dtype)\n", "", "sampling-grid-has-the-features'-dtype"),
